@@ -59,12 +59,12 @@ SET_OPERATORS = {'|', '&', '^'}      # set algebra: outside C04's list (arithmet
 
 
 def run(ctx):
-    handlers(ctx)
-    ops(ctx)
-    control(ctx)
-    scope(ctx)
-    select(ctx)
-    slots(ctx)
+    ctx.guard(handlers, ctx)
+    ctx.guard(ops, ctx)
+    ctx.guard(control, ctx)
+    ctx.guard(scope, ctx)
+    ctx.guard(select, ctx)
+    ctx.guard(slots, ctx)
     ctx.assume('xtuml.relate/unrelate/delete/select/navigate behave as C02/C09 decide')
     ctx.assume('whole-program semantic equivalence with a relational reference evaluator is a runtime quantity and is not decided')
     return ('Exhaustiveness of evaluators against the Node classes the grammar can construct; operator tables compared '
